@@ -86,9 +86,9 @@ impl ArrB {
 }
 /// ndarray's Zip panics unless all producers have the same extent: here a proof obligation
 #[verifier::external_body]
-pub fn zipfold_check3(a: &ArrD, b: &ArrD, c: &ArrB, ax: Axis)
-    requires ax.0 < a.dims@.len(), ax.0 < b.dims@.len(), ax.0 < c.dims@.len(),
-             a.dims@[ax.0 as int] == b.dims@[ax.0 as int], a.dims@[ax.0 as int] == c.dims@[ax.0 as int]
+pub fn zipfold_check3(a: &ArrD, axa: Axis, b: &ArrD, axb: Axis, c: &ArrB, axc: Axis)
+    requires axa.0 < a.dims@.len(), axb.0 < b.dims@.len(), axc.0 < c.dims@.len(),
+             a.dims@[axa.0 as int] == b.dims@[axb.0 as int], a.dims@[axa.0 as int] == c.dims@[axc.0 as int]
 { unimplemented!() }
 
 // ---- the per-lane statement
@@ -96,9 +96,17 @@ pub fn zipfold_check3(a: &ArrD, b: &ArrD, c: &ArrB, ax: Axis)
 pub open spec fn lane_ok(kc: Seq<T>, x: Seq<T>, yc: Seq<T>, rb: RowBoundary<T>) -> bool {
     let b = ib_of_row(rb);
     let n = yc.len() as int;
-    (solve_covered(b, n) && solve_inputs_ok(x, as1(yc), b)) ==>
-        forall|i: int| 0 <= i < n ==> (#[trigger] kc[i])@ == ksol(sys_up(x, ib_left(b), n), sys_mid(x, ib_left(b), ib_right(b), n), sys_low(x, ib_right(b), n),
-                                                              sys_rhs(x, as1(yc), ib_left(b), ib_right(b), n, 1), 0, n, i) && is_fin(kc[i])
+    &&& (solve_covered(b, n) && solve_inputs_ok(x, as1(yc), b)) ==>
+            forall|i: int| 0 <= i < n ==> (#[trigger] kc[i])@ == ksol(sys_up(x, ib_left(b), n), sys_mid(x, ib_left(b), ib_right(b), n), sys_low(x, ib_right(b), n),
+                                                                  sys_rhs(x, as1(yc), ib_left(b), ib_right(b), n, 1), 0, n, i) && is_fin(kc[i])
+    // three points, not-a-knot on both ends (spelled either way): the parabola through them (contract of solve_for_k[parabola])
+    &&& (is_parabola_arm(b, n) && axis_incr(x) && all_fin2(as1(yc))) ==>
+            forall|i: int| 0 <= i < 3 ==> (#[trigger] kc[i])@ == kpar(x, as1(yc), 1, 0, i) && is_fin(kc[i])
+}
+/// a per-lane condition is never Periodic: every lane is covered by the sided contract or is the 3-point parabola
+pub proof fn lemma_row_condition_covered(rb: RowBoundary<T>, n: int)
+    ensures solve_covered(ib_of_row(rb), n) || is_parabola_arm(ib_of_row(rb), n)
+{
 }
 pub open spec fn bnd_wf(b: ArrB, dims: Seq<usize>) -> bool {
     b.dims@.len() == dims.len() && b.dims@[0] == 1 && b.rows@.len() == 1 && (forall|t: int| 1 <= t < dims.len() ==> b.dims@[t] == dims[t])
